@@ -35,7 +35,16 @@ def make_chooser(plan: dict) -> sched.Chooser:
     cfg = plan.get("cfg", {})
     if "table" in s:
         return sched.Chooser(None, s["table"])
-    return sched.Chooser(random.Random(s["seed"]), None, p_line=cfg.get("p_line", 0.02), p_seam=cfg.get("p_seam", 0.2))
+    ch = sched.Chooser(random.Random(s["seed"]), None, p_line=cfg.get("p_line", 0.02), p_seam=cfg.get("p_seam", 0.2))
+    # swarm over scheduling policies: a quarter of the runs use the PCT-style policy
+    # (random task priorities, d in {1,2,3} priority-change points in the first L yield points)
+    policy = cfg.get("policy")
+    if policy is None:
+        policy = "pct" if s["seed"] % 4 == 0 else "rw"
+    if policy == "pct":
+        r = random.Random(s["seed"] ^ 0x5EED)
+        ch.enable_pct(r.choice([1, 2, 2, 3]), r.choice([40, 200, 1000, 5000]))
+    return ch
 
 
 def result(sim: Any, ch: sched.Chooser, status: str, signature: str | None = None, detail: str = "", nontrivial: bool | None = None, extra_counters: dict | None = None, recorded_extra: dict | None = None) -> dict:
